@@ -7,6 +7,11 @@
     is applied to a scratch copy of the repository (outside /repo and /verif, removed afterwards), facts are re-extracted and the rules
     must report a violation (of the expected rule when the record names one).  Outcomes go to the evidence file; they never become a
     VIOLATION for /repo.  A mutant that no longer applies to an edited /repo is `skipped`.
+    The corpus also contains the independently seeded breaking changes (seeded/<id>/patch.diff) whose meta.json records that this
+    property's check reports them.
+(c) false-alarm regression: every behaviour-preserving refactor patch of refactors/*/patch.diff that touches a file the property is
+    anchored in (properties.jsonl anchors, plus the files the property's seeds and mutants touch) is applied to a scratch copy; the check
+    must stay silent.  Alarms are listed in the evidence file (`refactor_corpus`), they are defects of the checker, not of /repo.
 """
 import concurrent.futures
 import glob
@@ -72,6 +77,66 @@ def _load_mutants(pid):
     return out
 
 
+def _load_seeds(pid):
+    out = []
+    for mp in sorted(glob.glob(os.path.join(VERIF, "seeded", "*", "meta.json"))):
+        try:
+            meta = json.load(open(mp))
+        except Exception:
+            continue
+        if (meta.get("detected_by") or {}).get(pid) is True:
+            d = os.path.dirname(mp)
+            out.append({"_name": "seed:" + os.path.basename(d), "patch": os.path.join(d, "patch.diff")})
+    return out
+
+
+def _patch_files(pf):
+    out = set()
+    try:
+        for l in open(pf):
+            if l.startswith("+++ b/") or l.startswith("--- a/"):
+                out.add(l[6:].strip())
+    except OSError:
+        pass
+    return out
+
+
+def _relevant_files(pid):
+    files = set()
+    for l in open(os.path.join(VERIF, "properties.jsonl")):
+        p = json.loads(l)
+        if p["id"] == pid:
+            files.update((p.get("anchors") or {}).get("files") or [])
+    for m in _load_mutants(pid):
+        if m.get("file"):
+            files.add(m["file"])
+        for e in m.get("edits") or m.get("subs") or []:
+            files.add(e["file"])
+    for sd in _load_seeds(pid):
+        files.update(_patch_files(sd["patch"]))
+    return files
+
+
+def refactor_corpus(pid, repo, R, workers=3):
+    rel = _relevant_files(pid)
+    todo = []
+    for pf in sorted(glob.glob(os.path.join(VERIF, "refactors", "*", "patch.diff"))):
+        if _patch_files(pf) & rel:
+            todo.append({"_name": os.path.basename(os.path.dirname(pf)), "patch": pf})
+    if not todo:
+        R.extra["refactor_corpus"] = {"patches": 0}
+        return "refactor corpus: no patch touches the anchored files"
+    res = []
+    with concurrent.futures.ThreadPoolExecutor(max_workers=workers) as ex:
+        for r in ex.map(lambda m: _one(pid, m, repo), todo):
+            res.append(r)
+    silent = [r["name"] for r in res if r["status"] == "missed"]          # `missed` = the check stayed silent = what a refactor must give
+    alarms = [r for r in res if r["status"].startswith("detected")]
+    other = [r for r in res if r["status"] not in ("missed",) and not r["status"].startswith("detected")]
+    R.extra["refactor_corpus"] = {"patches": len(todo), "silent": len(silent), "false_alarms": alarms, "skipped_or_invalid": other}
+    return "refactor corpus: %d relevant patches, %d silent, %d false alarms" % (len(todo), len(silent), len(alarms))
+
+
 def _apply(m, repo):
     """-> None if applied, else reason string"""
     edits = m.get("edits") or m.get("subs")
@@ -134,7 +199,7 @@ def _one(pid, m, repo):
 
 
 def self_test(pid, repo, R, workers=3):
-    ms = _load_mutants(pid)
+    ms = _load_mutants(pid) + _load_seeds(pid)
     if not ms:
         R.extra["self_test"] = {"mutants": 0}
         return "self-test: no recorded mutants"
@@ -155,4 +220,5 @@ def run(mod, pid, repo, R):
     parts = [cfg_test_agreement(mod, pid, repo, R)]
     if os.environ.get("VERIF_NO_SELFTEST") != "1":
         parts.append(self_test(pid, repo, R))
+        parts.append(refactor_corpus(pid, repo, R))
     return "; ".join(parts)
